@@ -9,25 +9,44 @@
 (* disagreement; "not accepted" (the log is not consumed to its end) can   *)
 (* only mean a malformed log or a specification bug.                       *)
 (***************************************************************************)
-EXTENDS Integers, Sequences, TLC, Json, J_Prims, J_Build, J_Tables, J_C07, J_C15, J_Text, J_C17
+EXTENDS Integers, Sequences, TLC, Json, J_Prims, J_Build, J_Tables, J_C07, J_C15, J_Text, J_C17, J_C20
 
 CONSTANT TraceFile
 Log == ndJsonDeserialize(TraceFile)
 
 VARIABLES l,      \* next record to consume
-          cov     \* predicate name -> number of events that exercised its antecedent
-vars == << l, cov >>
+          cov,    \* predicate name -> number of events that exercised its antecedent
+          mem     \* session memory: [sid, snap] - the first observation of every live value of the current session
+vars == << l, cov, mem >>
+
+\* session state visible to the judge of event e (a new session starts with empty memory)
+MemFor(e) == IF e.sid = mem.sid THEN mem ELSE [sid |-> e.sid, snap |-> << >>]
+\* C08: a value's observation (serialisation + every accessor) never changes after its first observation,
+\* whatever the caller overwrote in between (Scribble / ScribbleReturned steps of the session)
+JObserve(e, m) ==
+  << R("C08", "observation_unchanged_after_overwrite", e.r.has /\ e.h \in DOMAIN m.snap, e.r.obs = m.snap[e.h],
+       e.fn \o "/" \o (IF "cls" \in DOMAIN e THEN e.cls ELSE "-")),
+     R("C08", "value_observable", TRUE, e.r.has /\ "unobservable" \notin DOMAIN e.r.obs, e.fn) >>
+MemNext(e, m) ==
+  IF e.op = "Observe" /\ e.r.has /\ e.h \notin DOMAIN m.snap
+  THEN [m EXCEPT !.snap = [k \in (DOMAIN m.snap) \cup {e.h} |-> IF k = e.h THEN e.r.obs ELSE m.snap[k]]]
+  ELSE m
 
 Judge(e) ==
   IF e.r.panic \/ e.r.hang
   THEN << R("C04", "returns_normally", TRUE, FALSE, e.op \o "/" \o e.fn) >>
   ELSE CASE e.op \in PrimOps -> JPrims(e)
+         [] e.op = "Observe" -> JObserve(e, MemFor(e))
+         [] e.op \in {"Scribble", "ScribbleReturned"} -> << R("C08", "overwrite_performed", TRUE, e.r.done, e.op) >>
          [] e.op = "Read" -> JRead(e) \o JAccOne(e.fn, e["in"], e.r, e) \o JAcc2One(e.fn, e["in"], e.r, e)
          [] e.op = "Twins" -> JTwinsWith(e, JAcc2One)
          [] e.op = "Tables" -> JTables(e)
          [] e.op = "IdentityPair" -> JIdentityPair(e)
          [] e.op \in {"TextEnc", "TextDec", "TextEncChunks", "TextDecMutate", "TextGuard"} -> JText(e)
          [] e.op = "RAddrAccess" -> JRAddrAccess(e)
+         [] e.op = "ZeroMethods" -> JZero(e)
+         [] e.op = "PartialMethods" -> JPartial(e)
+         [] e.op = "Catalogue" -> JCatalogue(e)
          [] e.op = "Extrema" -> JExtrema(e)
          [] e.op = "ExpiryProbe" -> JExpiryProbe(e)
          [] e.op = "Build" -> JBuild(e)
@@ -47,7 +66,7 @@ Bump(c, js) ==
       old == [k \in DOMAIN c |-> IF k \in names THEN c[k] + 1 ELSE c[k]]
   IN [k \in (DOMAIN c \cup names) |-> IF k \in DOMAIN c THEN old[k] ELSE 1]
 
-Init == l = 1 /\ cov = [k \in {} |-> 0]
+Init == l = 1 /\ cov = [k \in {} |-> 0] /\ mem = [sid |-> 0, snap |-> << >>]
 
 Step ==
   /\ l <= Len(Log)
@@ -55,6 +74,7 @@ Step ==
          js == Judge(e) IN
      /\ Report(e, js)
      /\ cov' = Bump(cov, js)
+     /\ mem' = MemNext(e, MemFor(e))
   /\ l' = l + 1
 
 Done == l = Len(Log) + 1 /\ PrintT(<< "COVERAGE", ToJson(cov) >>) /\ PrintT(<< "ACCEPTED", Len(Log) >>) /\ UNCHANGED vars
